@@ -326,3 +326,57 @@ Fixpoint canon_op (c : cfg) (o : sop) : bool :=
       list_eqb lenc (uleb_encode (zlen (concat (map (encode_op c) body))))
   end.
 Definition canon_ops (c : cfg) (ops : list sop) : bool := forallb (canon_op c) ops.
+
+(* ---------- ill-formed expressions: the other half of "exactly" ----------
+   A byte string the parser accepts is reported as a sequence of operations; the
+   strings below are NOT concatenations of well-formed operations (at the marked
+   place, at any nesting depth) and have to be refused rather than reported as
+   some other sequence:
+     BOpcode  well-formed operations, then a byte in opcode position that is not an
+              operation of the table, then anything;
+     BTrunc   well-formed operations, then an entry-value / implicit-value operation
+              whose ULEB128 length announces [size] bytes where only [body] (shorter)
+              remains in the enclosing expression;
+     BInner   well-formed operations, then an entry-value operation whose block (of
+              the announced length) is itself ill-formed, then anything. *)
+Inductive why_bad : Type := NotAnOperation | BlockTruncated.
+
+Inductive bexpr : Type :=
+| BOpcode (pre : list sop) (opc : Z) (rest : list Z)
+| BTrunc (pre : list sop) (opc : Z) (lenc : list Z) (size : Z) (body : list Z)
+| BInner (pre : list sop) (opc : Z) (lenc : list Z) (inner : bexpr) (rest : list Z).
+
+Fixpoint encode_bad (c : cfg) (b : bexpr) : list Z :=
+  match b with
+  | BOpcode pre opc rest => encode_ops c pre ++ opc :: rest
+  | BTrunc pre opc lenc _ body => encode_ops c pre ++ opc :: lenc ++ body
+  | BInner pre opc lenc inner rest => encode_ops c pre ++ opc :: lenc ++ encode_bad c inner ++ rest
+  end.
+
+Definition is_block (ks : list opkind) : bool :=
+  match ks with [BLOCK] => true | _ => false end.
+
+(* the description is accurate: the prefix is well-formed, the opcode is / is not in
+   the table, the length field is a valid ULEB128 of the stated value *)
+Fixpoint wf_bad (c : cfg) (b : bexpr) : bool :=
+  match b with
+  | BOpcode pre opc _ =>
+      wf_ops c pre && match spec_row opc with None => true | Some _ => false end
+  | BTrunc pre opc lenc size body =>
+      wf_ops c pre &&
+      match spec_row opc with Some (_, ks) => is_nested ks || is_block ks | None => false end &&
+      uleb_ok lenc size && (zlen body <? size)
+  | BInner pre opc lenc inner _ =>
+      wf_ops c pre &&
+      match spec_row opc with Some (_, ks) => is_nested ks | None => false end &&
+      uleb_ok lenc (zlen (encode_bad c inner)) && wf_bad c inner
+  end.
+
+Fixpoint why_of (b : bexpr) : why_bad :=
+  match b with
+  | BOpcode _ _ _ => NotAnOperation
+  | BTrunc _ _ _ _ _ => BlockTruncated
+  | BInner _ _ _ inner _ => why_of inner
+  end.
+Definition why_name (w : why_bad) : string :=
+  match w with NotAnOperation => "not-an-operation" | BlockTruncated => "block-truncated" end.
